@@ -3,6 +3,7 @@ package c19
 import (
 	"context"
 	"encoding/base64"
+	"encoding/json"
 	"fmt"
 	"net"
 	"net/http"
@@ -93,6 +94,77 @@ type cfg struct {
 	Disable  bool   `json:"disable_authn"`
 	LoopAuth bool   `json:"enable_loopback_authn"`
 	PW       string `json:"password"` // "configured" | "generated"
+	// Doc == "": the handler gets a config.Root built as a Go literal.
+	// Doc == "d=<sp>,l=<sp>" (sp ∈ absent|false|true): the configuration is a JSON
+	// DOCUMENT in which disable_authn / enable_loopback_authn are spelled that way;
+	// it is decoded exactly as cmd/shovel/main.go does (json.Decoder into
+	// config.Root, then config.ValidateFix) and the DECODED value goes to web.New.
+	// Disable / LoopAuth then state what the operator WROTE; the reference
+	// predicate is computed from them, never from the decoded struct.
+	Doc string `json:"config_doc,omitempty"`
+}
+
+// switchSpellings are the spellings of a boolean switch that the unchanged tree
+// accepts (the fields are plain Go bools: a quoted "true" is a decode error
+// there and therefore not part of the judged domain).
+var switchSpellings = []string{"absent", "false", "true"}
+
+// docCfgs: every spelling of the two switches × the two password modes, as documents.
+func docCfgs() []cfg {
+	var out []cfg
+	for _, d := range switchSpellings {
+		for _, l := range switchSpellings {
+			for _, p := range []string{"configured", "generated"} {
+				out = append(out, cfg{Disable: d == "true", LoopAuth: l == "true", PW: p, Doc: "d=" + d + ",l=" + l})
+			}
+		}
+	}
+	return out
+}
+
+// document renders the configuration file the operator wrote.
+func (k cfg) document() (string, error) {
+	ds, ls, ok := strings.Cut(k.Doc, ",")
+	ds, ok1 := strings.CutPrefix(ds, "d=")
+	ls, ok2 := strings.CutPrefix(ls, "l=")
+	valid := func(s string) bool { return s == "absent" || s == "false" || s == "true" }
+	if !ok || !ok1 || !ok2 || !valid(ds) || !valid(ls) {
+		return "", fmt.Errorf("malformed config_doc %q", k.Doc)
+	}
+	if k.Disable != (ds == "true") || k.LoopAuth != (ls == "true") {
+		return "", fmt.Errorf("case says disable_authn=%v enable_loopback_authn=%v but its document spells %q", k.Disable, k.LoopAuth, k.Doc)
+	}
+	var fields []string
+	if ls != "absent" {
+		fields = append(fields, `"enable_loopback_authn": `+ls)
+	}
+	if ds != "absent" {
+		fields = append(fields, `"disable_authn": `+ds)
+	}
+	switch k.PW {
+	case "configured":
+		fields = append(fields, `"root_password": "`+configuredPassword+`"`)
+	case "generated":
+	default:
+		return "", fmt.Errorf("unknown password mode %q", k.PW)
+	}
+	doc := `{"pg_url": "postgres:///c19", "eth_sources": [], "integrations": []`
+	if len(fields) > 0 { // nothing to say about the dashboard: the operator leaves the object out
+		doc += `, "dashboard": {` + strings.Join(fields, ", ") + `}`
+	}
+	return doc + "}", nil
+}
+
+// decodeDocument reads the document the way cmd/shovel/main.go reads its config file.
+func decodeDocument(doc string) (*config.Root, error) {
+	var conf config.Root
+	if err := json.NewDecoder(strings.NewReader(doc)).Decode(&conf); err != nil {
+		return nil, fmt.Errorf("decoding %s: %v", doc, err)
+	}
+	if err := config.ValidateFix(&conf); err != nil {
+		return nil, fmt.Errorf("ValidateFix of %s: %v", doc, err)
+	}
+	return &conf, nil
 }
 
 func allCfgs() []cfg {
@@ -100,7 +172,7 @@ func allCfgs() []cfg {
 	for _, d := range []bool{false, true} {
 		for _, l := range []bool{false, true} {
 			for _, p := range []string{"configured", "generated"} {
-				out = append(out, cfg{d, l, p})
+				out = append(out, cfg{Disable: d, LoopAuth: l, PW: p})
 			}
 		}
 	}
@@ -256,11 +328,23 @@ func newEnvOpt(k cfg, rt *routeTable, real bool) (*env, error) {
 	}
 	for try := 0; try < 1000; try++ {
 		e := &env{k: k, conf: &config.Root{}, ran: map[string]int{}, ranReq: map[string]int{}, minted: map[string]*http.Cookie{}, real: real}
-		e.conf.Dashboard.DisableAuthn = k.Disable
-		e.conf.Dashboard.EnableLoopbackAuthn = k.LoopAuth
+		if k.Doc != "" {
+			doc, err := k.document()
+			if err != nil {
+				return nil, err
+			}
+			if e.conf, err = decodeDocument(doc); err != nil {
+				return nil, err
+			}
+		} else {
+			e.conf.Dashboard.DisableAuthn = k.Disable
+			e.conf.Dashboard.EnableLoopbackAuthn = k.LoopAuth
+			if k.PW == "configured" {
+				e.conf.Dashboard.RootPassword = configuredPassword
+			}
+		}
 		switch k.PW {
 		case "configured":
-			e.conf.Dashboard.RootPassword = configuredPassword
 			e.pw = configuredPassword // the reference password IS the configured one; the handler's copy is not consulted
 		case "generated":
 		default:
